@@ -459,7 +459,21 @@ struct VM : VMBase
       cfg.set_override_pattern_formatter_options(quill::PatternFormatterOptions{"%(message)"});
       std::string path = scratch_dir + "/" + name + ".log";
       sink_path[static_cast<size_t>(i)] = path;
-      sinks[static_cast<size_t>(i)] = Fe::template create_or_get_sink<quill::FileSink>(path, cfg);
+      if (plan.get("sink" + std::to_string(i) + "_notifier", 0) != 0)
+      {
+        // a FileSink with user callbacks on file events; before_write hands the statement through unchanged
+        quill::FileEventNotifier fen;
+        fen.before_open = [](quill::fs::path const&) {};
+        fen.after_open = [](quill::fs::path const&, FILE*) {};
+        fen.before_close = [](quill::fs::path const&, FILE*) {};
+        fen.after_close = [](quill::fs::path const&) {};
+        fen.before_write = [](std::string_view message) { return std::string{message}; };
+        sinks[static_cast<size_t>(i)] = Fe::template create_or_get_sink<quill::FileSink>(path, cfg, fen);
+      }
+      else
+      {
+        sinks[static_cast<size_t>(i)] = Fe::template create_or_get_sink<quill::FileSink>(path, cfg);
+      }
     }
   }
 
